@@ -839,6 +839,12 @@ func (e *Eng) specCall(fr *Frame, st *State, fn *ssa.Function, args []Val, argTa
 					return tAnd(tEq(sa.B, sb.B), tEq(sa.O, sb.O), tEq(sa.L, sb.L), tEq(sa.C, sb.C)), false
 				}
 			}
+			// two strings: the very same string value (header), which implies equal contents
+			if sa, ok := a.Boxed.(*StrV); ok {
+				if sb, ok := b.Boxed.(*StrV); ok {
+					return tAnd(tEq(sa.B, sb.B), tEq(sa.O, sb.O), tEq(sa.L, sb.L)), false
+				}
+			}
 		}
 		panic(unsupportedErr{"spec_sameslice needs two slices"})
 	case name == "spec_sameref":
@@ -1100,7 +1106,7 @@ func (e *Eng) evalModSpecVars(fc *FuncContract, m *ModSpec, args []Val, vars map
 		obj = iv
 	}
 	if m.Kind == "object" {
-		return []modTarget{{kind: "object", ref: ghostKey(obj)}}
+		return []modTarget{{kind: "object", ref: ghostKey(obj), typ: ot}}
 	}
 	if inner, ok := obj.(*IfaceV); ok {
 		// interface-typed expression: use its dynamic value reference
@@ -1180,6 +1186,18 @@ func (e *Eng) applyMod(fr *Frame, st, old *State, instr ssa.Instruction, fc *Fun
 				if strings.HasPrefix(n, "F|") && strings.HasPrefix(e.heapNames[n], "(Array "+sRef+" ") && !e.w.immutableHeap(n) {
 					tn := n[2:]
 					tn = tn[:strings.LastIndex(tn, "|")]
+					if t.typ != nil {
+						if pt, ok := under(t.typ).(*types.Pointer); ok {
+							if _, ok := under(pt.Elem()).(*types.Struct); ok {
+								// statically typed object: only the field heaps of that struct type
+								if typeName(pt.Elem()) == tn {
+									st.heap[n] = app("store", st.heap[n], t.ref, e.fresh("modobj", elemSortOf(e.heapNames[n])))
+									e.modified[n] = true
+								}
+								continue
+							}
+						}
+					}
 					st.heap[n] = app("ite", tEq(e.rtypeOf(t.ref), e.structTagByName(tn)), app("store", st.heap[n], t.ref, e.fresh("modobj", elemSortOf(e.heapNames[n]))), st.heap[n])
 					e.modified[n] = true
 				}
